@@ -1104,14 +1104,6 @@ var basicNorm = map[string]func(f []string) []string{
 		}
 		return strings.Fields(e.fields())
 	},
-	"error": func(f []string) []string { // the reader never fills State and Class
-		e, ok := cbParseErr(f)
-		if !ok {
-			return f
-		}
-		e.state, e.class = 0, 0
-		return strings.Fields(e.fields())
-	},
 	"loginack": func(f []string) []string {
 		a, ok := cbParseAck(f)
 		if !ok {
